@@ -354,7 +354,11 @@ func goroutinesIn(needle string) int {
 		// header: "<count> @ 0x… 0x…"
 		c := 1
 		if i := strings.Index(blk, " @"); i > 0 {
-			if v, err := strconv.Atoi(strings.TrimSpace(blk[:i])); err == nil {
+			head := blk[:i] // "<count>", possibly preceded by the profile's title line
+			if j := strings.LastIndexByte(head, '\n'); j >= 0 {
+				head = head[j+1:]
+			}
+			if v, err := strconv.Atoi(strings.TrimSpace(head)); err == nil {
 				c = v
 			}
 		}
